@@ -20,6 +20,7 @@ import (
 
 	kafka "github.com/segmentio/kafka-go"
 	"github.com/segmentio/kafka-go/protocol"
+	"github.com/segmentio/kafka-go/protocol/listoffsets"
 	"github.com/segmentio/kafka-go/protocol/metadata"
 	"github.com/segmentio/kafka-go/protocol/offsetcommit"
 	"github.com/segmentio/kafka-go/protocol/offsetfetch"
@@ -31,7 +32,90 @@ func (s stubTransport) RoundTrip(context.Context, net.Addr, kafka.Request) (kafk
 	return s.res, nil
 }
 
+// fListOffsets: Client.ListOffsets on an arbitrary (already merged) protocol response handed over by the stub: entries in any
+// order, repeated, with error codes, restored or foreign timestamps — but only for requested (topic, partition)s (an entry for a
+// partition that was never requested makes the client write into a nil map; that is outside a well-formed broker's behaviour
+// and outside this op).
+//
+//	flo <request> <response topics>   → records as in clientlo
+func fListOffsets(r *rand.Rand, n int) {
+	addr := kafka.TCP("stub:9092")
+	for i := 0; i < n; i++ {
+		ts := randomReq(r, 3)
+		req := &kafka.ListOffsetsRequest{Topics: map[string][]kafka.OffsetRequest{}}
+		var order []string
+		for _, t := range ts {
+			if _, ok := req.Topics[t.name]; !ok {
+				order = append(order, t.name)
+				req.Topics[t.name] = []kafka.OffsetRequest{}
+			}
+			for _, p := range t.parts {
+				req.Topics[t.name] = append(req.Topics[t.name], kafka.OffsetRequest{Partition: int(p.part), Timestamp: p.ts})
+			}
+		}
+		sort.Strings(order)
+		var mts []reqTopic
+		for _, nme := range order {
+			t := reqTopic{name: nme}
+			for _, p := range req.Topics[nme] {
+				t.parts = append(t.parts, reqPart{int32(p.Partition), p.Timestamp})
+			}
+			mts = append(mts, t)
+		}
+		res := &listoffsets.Response{ThrottleTimeMs: int32(r.Intn(3))}
+		var enc []string
+		for _, t := range mts {
+			if len(t.parts) == 0 || r.Intn(5) == 0 {
+				continue
+			}
+			rt := listoffsets.ResponseTopic{Topic: t.name}
+			var ps []string
+			for k := 0; k < r.Intn(5); k++ {
+				q := t.parts[r.Intn(len(t.parts))]
+				p := listoffsets.ResponsePartition{Partition: q.part, Timestamp: q.ts, Offset: int64(r.Intn(8)) - 1, LeaderEpoch: -1}
+				switch r.Intn(6) {
+				case 0:
+					p.ErrorCode = int16(1 + r.Intn(8))
+				case 1:
+					p.Timestamp = []int64{-1, -2, 777}[r.Intn(3)]
+				case 2:
+					p.ErrorCode, p.Timestamp, p.Offset = -1, -1, -1 // the placeholder of a failed part
+				}
+				rt.Partitions = append(rt.Partitions, p)
+				ps = append(ps, fmt.Sprintf("%d/%d/%d/%d", p.Partition, p.ErrorCode, p.Timestamp, p.Offset))
+			}
+			res.Topics = append(res.Topics, rt)
+			enc = append(enc, t.name+":"+dash(strings.Join(ps, ",")))
+		}
+		op := "flo " + encReq(mts) + " " + dash(strings.Join(enc, "|"))
+		cl := &kafka.Client{Addr: addr, Transport: stubTransport{res}}
+		out, err := cl.ListOffsets(context.Background(), req)
+		if err != nil {
+			emit(op, "err")
+			continue
+		}
+		var recs []string
+		for tn, ps := range out.Topics {
+			for _, p := range ps {
+				var offs []string
+				for o, tm := range p.Offsets {
+					ms := "z"
+					if !tm.IsZero() {
+						ms = strconv.FormatInt(tm.UnixNano()/1e6, 10)
+					}
+					offs = append(offs, fmt.Sprintf("%d@%s", o, ms))
+				}
+				sort.Strings(offs)
+				recs = append(recs, fmt.Sprintf("%s/%d:%d/%d/%d/%s", tn, p.Partition, p.FirstOffset, p.LastOffset, errCode(p.Error), dash(strings.Join(offs, "+"))))
+			}
+		}
+		sort.Strings(recs)
+		emit(op, dash(strings.Join(recs, "|")))
+	}
+}
+
 func opMappingsF(r *rand.Rand, n int) {
+	fListOffsets(r, n)
 	addr := kafka.TCP("stub:9092")
 	for i := 0; i < n; i++ {
 		// ---- Metadata
